@@ -380,3 +380,204 @@ Ltac facts Hinv :=
 Lemma E_overflow : forall st e, length (ents st) <= e -> E st e = dent.
 Proof. intros. unfold E. apply nth_overflow. auto. Qed.
 
+
+(* ------------------------------------------------------------------ *)
+(* group 1 is preserved by every step *)
+
+Lemma pres_B1 : forall fixed st t st', inv1 st -> step fixed st t = Some st' ->
+  forall d e, d_store (D st' d) = Some e -> e < length (ents st').
+Proof.
+  intros fixed st t st' Hinv H.
+  step_cases H; facts Hinv; intros dX eX; autorewrite with c12; case_eqb; simpl; intros Hx;
+    try (inversion Hx; subst); try lia;
+    try (pose proof (i_B1 _ Hinv _ _ Hx); lia).
+Qed.
+
+Lemma pres_W : forall fixed st t st', inv1 st -> step fixed st t = Some st' ->
+  forall n d pc, T st' n = CReq d pc -> d < length (dirs st').
+Proof.
+  intros fixed st t st' Hinv H.
+  step_cases H; facts Hinv; intros nX dX pcX; autorewrite with c12; case_eqb; simpl; intros Hx;
+    try (inversion Hx; subst); try lia;
+    try (pose proof (i_W _ Hinv _ _ _ Hx); lia).
+  all: showrem.
+Qed.
+
+Lemma pres_B2 : forall fixed st t st', inv1 st -> step fixed st t = Some st' ->
+  forall n e, pc_ent (T st' n) = Some e -> e < length (ents st').
+Proof.
+  intros fixed st t st' Hinv H.
+  step_cases H; facts Hinv; intros nX eX; autorewrite with c12; case_eqb; simpl; intros Hx;
+    try (inversion Hx; subst); try lia;
+    try (pose proof (i_B2 _ Hinv _ _ Hx); lia).
+  all: showrem.
+Qed.
+
+Lemma pres_B4 : forall fixed st t st', inv1 st -> step fixed st t = Some st' ->
+  forall n d, In d (pc_todo (T st' n)) -> d < length (dirs st').
+Proof.
+  intros fixed st t st' Hinv H.
+  step_cases H; facts Hinv; intros nX dX; autorewrite with c12; case_eqb; simpl; intros Hx;
+    try lia; try (pose proof (i_B4 _ Hinv _ _ Hx); lia); try (apply Hb4; simpl; tauto).
+  unfold existing_dirs in Hx. apply filter_In in Hx. destruct Hx as [Hx _]. apply in_seq in Hx. lia.
+Qed.
+
+Lemma pres_B5 : forall fixed st t st', inv1 st -> step fixed st t = Some st' ->
+  forall e, e < length (ents st') -> e_dir (E st' e) < length (dirs st').
+Proof.
+  intros fixed st t st' Hinv H.
+  step_cases H; facts Hinv; intros eX; autorewrite with c12; case_eqb; simpl; intros Hx;
+    try lia; try (pose proof (i_B5 _ Hinv _ Hx); lia).
+  - apply (i_B5 _ Hinv). lia.
+  - autorewrite with c12. auto.
+Qed.
+
+Lemma pres_L1a : forall fixed st t st', inv1 st -> step fixed st t = Some st' ->
+  forall t0, sl st' = Some t0 -> holds_sl st' t0.
+Proof.
+  intros fixed st t st' Hinv H.
+  step_cases H; facts Hinv; intros tX; autorewrite with c12; intros Hx;
+    try discriminate;
+    try (inversion Hx; subst; simpl; autorewrite with c12; case_eqb; simpl; try rewrite HI; try reflexivity; try lia; fail);
+    pose proof (i_L1a _ Hinv _ Hx) as Hh; pose proof (i_L1b _ Hinv) as Hu;
+    destruct tX as [nX|eX]; simpl in *; autorewrite with c12; case_eqb; simpl; auto; try rewrite HI; try reflexivity;
+    try (rewrite HT in Hh; simpl in Hh; discriminate); try (rewrite HI in Hh; simpl in Hh; discriminate); try congruence.
+Qed.
+
+Lemma pres_L1b : forall fixed st t st', inv1 st -> step fixed st t = Some st' ->
+  forall t0, holds_sl st' t0 -> sl st' = Some t0.
+Proof.
+  intros fixed st t st' Hinv H.
+  step_cases H; facts Hinv; intros tX; pose proof (i_L1b _ Hinv tX) as Hu; pose proof (i_L1a _ Hinv) as Ha;
+    destruct tX as [nX|eX]; simpl in *; autorewrite with c12; case_eqb; simpl; try rewrite HI; simpl; auto;
+    try discriminate; try congruence;
+    try (let Hp := fresh "Hp" in intro Hp; specialize (Hu Hp); congruence).
+  autorewrite with c12. destruct (e_idle (E st e)); simpl in *; auto; discriminate.
+Qed.
+
+Lemma pres_L2a : forall fixed st t st', inv1 st -> step fixed st t = Some st' ->
+  forall e t0 b, e_w (E st' e) = Some (t0, b) -> holds_w st' e t0 b.
+Proof.
+  intros fixed st t st' Hinv H.
+  step_cases H; facts Hinv; intros eX tX bX; pose proof (i_L2a _ Hinv eX tX bX) as Ha;
+    destruct tX as [nX|eY]; simpl in *;
+    autorewrite with c12; case_eqb; simpl; autorewrite with c12; simpl; intros Hx; try discriminate;
+    try (inversion Hx; subst); try specialize (Ha Hx);
+    simpl in *; autorewrite with c12; case_eqb; simpl; try rewrite HI; simpl; auto;
+    try discriminate; try congruence;
+    try (rewrite HT in Ha; simpl in Ha; try discriminate; inversion Ha; subst; auto; congruence);
+    try (destruct Ha as [Ha1 Ha2]; subst; rewrite HI in Ha2; simpl in Ha2; try discriminate; auto; congruence).
+Qed.
+
+Lemma pres_L2b : forall fixed st t st', inv1 st -> step fixed st t = Some st' ->
+  forall e t0 b, holds_w st' e t0 b -> e_w (E st' e) = Some (t0, b).
+Proof.
+  intros fixed st t st' Hinv H.
+  step_cases H; facts Hinv; intros eX tX bX; pose proof (i_L2b _ Hinv eX tX bX) as Hu;
+    destruct tX as [nX|eY]; simpl in *;
+    autorewrite with c12; case_eqb; simpl; autorewrite with c12; simpl; try rewrite HI; simpl;
+    intros Hx; try discriminate;
+    try (specialize (Hu Hx)); try congruence;
+    try (injection Hx; intros; subst; case_eqb; simpl; auto; congruence);
+    try (destruct Hx as [Hx1 Hx2]; subst; case_eqb; simpl; try rewrite HI in *; simpl in *; try discriminate;
+         try (injection Hx2; intros; subst); auto; try congruence).
+  - rewrite E_overflow in Hu by lia. discriminate.
+  - apply Hu; split; auto. destruct (e_idle (E st e)); simpl in *; auto; discriminate.
+Qed.
+
+Lemma pres_L3a : forall fixed st t st', inv1 st -> step fixed st t = Some st' ->
+  forall n e, In n (e_rd (E st' e)) -> rd_pc (T st' n) = Some e.
+Proof.
+  intros fixed st t st' Hinv H.
+  step_cases H; facts Hinv; intros nX eX; pose proof (i_L3a _ Hinv nX eX) as Ha;
+    autorewrite with c12; case_eqb; simpl; autorewrite with c12; simpl;
+    intros Hx; try contradiction; try (apply in_remove_nat in Hx; destruct Hx as [Hx Hne]);
+    try (destruct Hx as [Hx|Hx]; [subst|]); try specialize (Ha Hx); auto; try congruence; try lia;
+    try (rewrite HT in Ha; simpl in Ha; congruence).
+Qed.
+
+Lemma pres_L3b : forall fixed st t st', inv1 st -> step fixed st t = Some st' ->
+  forall n e, rd_pc (T st' n) = Some e -> In n (e_rd (E st' e)).
+Proof.
+  intros fixed st t st' Hinv H.
+  step_cases H; facts Hinv; intros nX eX; pose proof (i_L3b _ Hinv nX eX) as Ha;
+    autorewrite with c12; case_eqb; simpl; autorewrite with c12; simpl;
+    intros Hx; try discriminate; try (injection Hx; intros; subst); try (apply in_remove_nat; split);
+    auto; try congruence; try lia; try (right; auto).
+  exfalso. assert (Hp : pc_ent (T st nX) = Some (length (ents st))).
+  { destruct (T st nX) as [? p|p]; try destruct p; simpl in *; congruence. }
+  pose proof (i_B2 _ Hinv _ _ Hp). lia.
+Qed.
+
+Lemma pres_A1 : forall fixed st t st', inv1 st -> step fixed st t = Some st' ->
+  forall e t0, e_w (E st' e) = Some (t0, true) -> e_rd (E st' e) = [].
+Proof.
+  intros fixed st t st' Hinv H.
+  step_cases H; facts Hinv; intros eX tX; pose proof (i_A1 _ Hinv eX tX) as Ha;
+    autorewrite with c12; case_eqb; simpl; autorewrite with c12; simpl;
+    intros Hx; try discriminate; auto; try congruence;
+    rewrite (Ha Hx) in Hr0; contradiction.
+Qed.
+
+
+Lemma inv1_step : forall fixed st t st', inv1 st -> step fixed st t = Some st' -> inv1 st'.
+Proof.
+  intros fixed st t st' Hinv H. constructor.
+  - eapply pres_W; eauto.
+  - eapply pres_B1; eauto.
+  - eapply pres_B2; eauto.
+  - eapply pres_B4; eauto.
+  - eapply pres_B5; eauto.
+  - eapply pres_L1a; eauto.
+  - eapply pres_L1b; eauto.
+  - eapply pres_L2a; eauto.
+  - eapply pres_L2b; eauto.
+  - eapply pres_L3a; eauto.
+  - eapply pres_L3b; eauto.
+  - eapply pres_A1; eauto.
+Qed.
+
+Lemma nth_repeat_ddir : forall n d, nth d (repeat ddir n) ddir = ddir.
+Proof. induction n; destruct d; simpl; auto. Qed.
+
+Lemma T_init : forall nd specs n, T (init nd specs) n = nth n (map spec_thread specs) dthr.
+Proof. reflexivity. Qed.
+
+Lemma init_thread_cases : forall nd specs n,
+  T (init nd specs) n = dthr \/ (exists d, T (init nd specs) n = CReq d RAcqSL /\ In (SReq d) specs)
+  \/ T (init nd specs) n = CDel DAcqSL.
+Proof.
+  intros. rewrite T_init. revert n. induction specs as [|s r IH]; intros n.
+  - left. destruct n; reflexivity.
+  - destruct n; simpl.
+    + destruct s; simpl; [right; left; eexists; split; [reflexivity | left; reflexivity] | right; right; reflexivity].
+    + destruct (IH n) as [Hq|[[d [Hq Hin]]|Hq]]; auto. right; left. exists d. split; auto. right; auto.
+Qed.
+
+Lemma inv1_init : forall nd specs, Forall (spec_ok nd) specs -> inv1 (init nd specs).
+Proof.
+  intros nd specs Hok.
+  assert (HE : forall e, E (init nd specs) e = dent) by (intros; unfold E; simpl; destruct e; reflexivity).
+  assert (HD : forall d, D (init nd specs) d = ddir) by (intros; unfold D; simpl; apply nth_repeat_ddir).
+  constructor; intros.
+  - destruct (init_thread_cases nd specs n) as [Hq|[[d' [Hq Hin]]|Hq]]; rewrite Hq in H; try discriminate.
+    + unfold dthr in H. inversion H; subst. simpl. rewrite Forall_forall in Hok.
+      (* the default thread is a finished request on directory 0: no obligation unless it is a real one *)
+      exfalso. clear -H. discriminate.
+    + inversion H; subst. simpl. rewrite repeat_length. rewrite Forall_forall in Hok. apply (Hok _ Hin).
+  - rewrite HD in H. discriminate.
+  - destruct (init_thread_cases nd specs n) as [Hq|[[d' [Hq Hin]]|Hq]]; rewrite Hq in H; discriminate.
+  - destruct (init_thread_cases nd specs n) as [Hq|[[d' [Hq Hin]]|Hq]]; rewrite Hq in H; simpl in H; contradiction.
+  - simpl in H. lia.
+  - discriminate.
+  - destruct t as [n|e]; simpl in H.
+    + destruct (init_thread_cases nd specs n) as [Hq|[[d' [Hq Hin]]|Hq]]; rewrite Hq in H; discriminate.
+    + rewrite HE in H. discriminate.
+  - rewrite HE in H. discriminate.
+  - destruct t as [n|e']; simpl in H.
+    + destruct (init_thread_cases nd specs n) as [Hq|[[d' [Hq Hin]]|Hq]]; rewrite Hq in H; discriminate.
+    + destruct H as [_ H]. rewrite HE in H. discriminate.
+  - rewrite HE in H. contradiction.
+  - destruct (init_thread_cases nd specs n) as [Hq|[[d' [Hq Hin]]|Hq]]; rewrite Hq in H; discriminate.
+  - rewrite HE. reflexivity.
+Qed.
